@@ -791,6 +791,7 @@ int harness_main(int argc, char **argv, const char *harness, const char *propert
     else if ((v = val("--jobs"))) jobs_override = atoi(v);
     else if ((v = val("--deadline"))) deadline_override = atof(v);
     else if ((v = val("--known"))) g_kf_path = v;
+    else if ((v = val("--name"))) g_opt.harness = v;
     else if ((v = val("--replay-dir"))) g_replay_dir = v;
     else if (a == "--no-cache") no_cache = true;
     else if (a == "--no-iter") no_iter = true;
